@@ -12,9 +12,10 @@ Contract stamped on  fn f(p: &mut Parser, [markers], ..) -> R :
 Every loop:  invariant (same facts, live markers) ; decreases mu(*p)   -- every loop terminates
 file():      ensures at_eof(final)  => with wf this is build_tree's accounting precondition (all tokens consumed)
 
-In-function `assert!(p.at(..))` are handled in *partial* mode: `assert!(c)` -> `let c0 = c; assume(c0)`; i.e. what is proved
-is: for every token vector, a call never loops forever, never indexes out of range, never hits unreachable!(), and if it
-returns the invariant holds.  Freedom from the assert! panics themselves needs exact fuel lower bounds and is NOT claimed.
+TOTAL mode: every `assert!`, `debug_assert!`, `unreachable!()`, index and arithmetic operation inside the grammar functions is a
+proof obligation; a function that starts with `assert!(p.at_unmetered(T![x]))` gets the stamped precondition
+`next_kind(old(p)) == x`, which Verus then demands of every caller.  (Until fix 4eccd34 the assertions were fuel-dependent and
+could fail; the unit ran in partial mode, `MODE = "partial"`, which assumes them.)
 """
 import re
 
@@ -367,8 +368,7 @@ UNIT = Unit(
     properties=["C04", "C12"],
     rules=CORE_RULES,
     describe=__doc__.split("\n\n")[0],
-    trusted=["in-function `assert!(c)` of the grammar functions are taken in partial mode (`assume(c)` after evaluating c): "
-             "freedom from these particular panics is not claimed (it depends on exact fuel lower bounds)"],
+    trusted=[],
     items=TYPES + PCORE_FNS + [GRAMMAR_LEMMAS] + [Raw(text=lambda: "")],
 )
 MODE = "total"   # every assert!/debug_assert!/unreachable!() of the grammar functions is an obligation
